@@ -7,7 +7,7 @@ use serde_json::{json, Value};
 pub const DEF: PropDef = PropDef {
     id: "C05",
     level: "exploration",
-    rule: "complete enumeration of programs = fixed prelude (global x, helper function yod) + function `zed takes u` whose body is every sequence of 1..2 (thorough 1..3) statements of a 22-statement body alphabet (locals, parameter mutation, global update, returns at every depth, recursion, nested call, pronoun read/write, array parameter mutation) + every sequence of 1..2 (with one-statement bodies: 1..3) statements of a 38-statement caller alphabet (calls in every position, wrong arity, calling a variable / unknown name, leaked locals, block locals, shadowing, side-effecting arguments, arrays by value, pronouns after blocks and calls); plus the pronoun-after-naming family: 38 statements that name several variables (subscript reads, operators, short-circuit, lists, every statement kind with a destination, calls, conditions of if / while / until) x 7 pronoun uses, at top level and inside a function; plus 14 shapes that create a local in one scope and open a later scope of every kind (block, else, loop iteration, call, nested function) x 5 names of the three kinds; outcome and output compared with the reference interpreter under both scoping disciplines; non-trivial = judged (not skipped as unspecified); distinct = distinct program text",
+    rule: "complete enumeration of programs = fixed prelude (global x, helper function yod) + function `zed takes u` whose body is every sequence of 1..2 (thorough 1..3) statements of a 22-statement body alphabet (locals, parameter mutation, global update, returns at every depth, recursion, nested call, pronoun read/write, array parameter mutation) + every sequence of 1..2 (with one-statement bodies: 1..3) statements of a 41-statement caller alphabet (calls in every position, wrong arity, calling a variable / unknown name, leaked locals, block locals, shadowing, side-effecting arguments, arrays by value, pronouns after blocks and calls); plus the pronoun-after-naming family: 38 statements that name several variables (subscript reads, operators, short-circuit, lists, every statement kind with a destination, calls, conditions of if / while / until) x 7 pronoun uses, at top level and inside a function; plus 14 shapes that create a local in one scope and open a later scope of every kind (block, else, loop iteration, call, nested function) x 5 names of the three kinds; outcome and output compared with the reference interpreter under both scoping disciplines; non-trivial = judged (not skipped as unspecified); distinct = distinct program text",
     assumptions: &[
         "programs on which lexical and dynamic scoping differ (callee touching a caller's non-global local) are skipped as U-scope; pronoun uses whose referent depends on unspecified evaluation order are skipped as U-pronoun",
         "reference interpreter written from the property text",
@@ -76,6 +76,10 @@ pub const MAIN: &[&str] = &[
     "hide takes yod\ngive back yod plus 1\n\nsay hide taking 5\nsay yod taking 1\n",
     "own takes own\ngive back own\n\nsay own taking 3\nsay own taking 4\n",
     "hide takes zed\nsay zed\ngive back yod taking zed\n\nsay hide taking 5\nsay zed taking 1\n",
+    // a return out of a loop (nested loops, inside an if) whose guards consume a queue: each guard runs once per pass
+    "rock q with 1, 2, 3\nfirst takes k\nwhile roll q\ngive back 7\n\ngive back 8\n\nsay first taking 0\nsay q\n",
+    "rock q with 1, 2, 3, 4\nrock p with 1, 2, 3\nfirst takes k\nwhile roll q\nuntil not roll p\nif k is 0\ngive back 7\n\n\n\ngive back 8\n\nsay first taking 0\nsay q\nsay p\n",
+    "rock q with 0, 0, 5\nfirst takes k\nuntil roll q\nsay 1\n\nuntil roll q\ngive back 9\n\ngive back 8\n\nsay first taking 0\nsay q\n",
     // every wrong arity, with parameters the body never reads or that exist outside
     "two takes k, j\nsay k\ngive back k\n\nsay two taking 1\n",
     "two takes k, x\ngive back k plus x\n\nsay two taking 5\nsay x\n",
